@@ -202,6 +202,13 @@ func SplitStatementToPieces(blob string) (pieces []string, err error) {
 		tkn, pos, _ := tokenizer.scan()
 		switch tkn {
 		case ';':
+			if tokenizer.specialComment != nil {
+				// a semicolon inside /*! ... */ or /*+ ... */: it does not end
+				// the statement that holds the comment, and its reported
+				// offset is relative to the rewritten comment text
+				emptyStatement = false
+				continue
+			}
 			stmt = blob[stmtBegin:pos.Offset]
 			if !emptyStatement {
 				pieces = append(pieces, stmt)
